@@ -1,6 +1,7 @@
 (* ops_kernels_block.ml -- model side of harness/drv_kernels_block.cpp (C07, block and complex value types):
    the SAME extracted models as ops_kernels.ml (Kernels.v), run at the Scalar instances
-     BlockInst.coq_BlockS sc b      (static_matrix<Q,b,b>; products do not commute)      ops "bk.*"
+     BlockInst.coq_BlockS sc b      (static_matrix<Q,b,b>; products do not commute)      ops "bk.*" (and "bkd.*":
+                                    the C++ side at static_matrix<double,b,b>, exact dyadic values, NaN junk)
      ComplexInst.coq_ComplexS sc    (std::complex; conjugation as adjoint)               ops "cx.*"
    plus BlockKernels.v for the inner products whose entries are static_matrix<Q,b,1> / static_matrix<Q,b,b>.
    Vector entries (static_matrix<Q,b,1>) travel as blocks with the vector in column 0 (BlockInst.blk_col); on
@@ -62,44 +63,49 @@ let t_ccrs t : Crs.crs =
   let rows = List.init n (fun _ -> t_list t (fun t -> let c = t_i t in let v = t_c t in (c, v))) in
   { Crs.ncols = m; Crs.rows = rows }
 
+(* the same model function serves the double-instantiated run ("bkd." prefix: static_matrix<double,b,b> on dyadic
+   values; junk tokens nan/inf in overwritten outputs are read as 0 -- irrelevant by the any-Scalar
+   "ignores old output" theorems) *)
+let regb name f = reg ("bk." ^ name) f; reg ("bkd." ^ name) f
+
 let () =
   (* ---------------- blocks ---------------- *)
-  reg "bk.spmv" (fun t -> let b = t_i t in let s = inst b in let k = t_s t in let vk = t_s t in
+  regb "spmv" (fun t -> let b = t_i t in let s = inst b in let k = t_s t in let vk = t_s t in
     let alpha = t_coef k.[0] b t in let a = t_bcrs b t in let x = t_bvec_k vk.[0] b t in
     let beta = t_coef k.[1] b t in let y = t_bvec_k vk.[1] b t in
     show_bvec b (Kernels.spmv s alpha a x beta y));
-  reg "bk.residual" (fun t -> let b = t_i t in let s = inst b in let vk = t_s t in
+  regb "residual" (fun t -> let b = t_i t in let s = inst b in let vk = t_s t in
     let f = t_bvec_k vk.[0] b t in let a = t_bcrs b t in let x = t_bvec_k vk.[1] b t in let r = t_bvec_k vk.[2] b t in
     show_bvec b (Kernels.residual s f a x r));
-  reg "bk.axpby" (fun t -> let b = t_i t in let s = inst b in let k = t_s t in
+  regb "axpby" (fun t -> let b = t_i t in let s = inst b in let k = t_s t in
     let a = t_coef k.[0] b t in let x = t_bvec b t in let c = t_coef k.[1] b t in let y = t_bvec b t in
     show_bvec b (Kernels.axpby s a x c y));
-  reg "bk.axpbypcz" (fun t -> let b = t_i t in let s = inst b in let k = t_s t in
+  regb "axpbypcz" (fun t -> let b = t_i t in let s = inst b in let k = t_s t in
     let a = t_coef k.[0] b t in let x = t_bvec b t in let c = t_coef k.[1] b t in let y = t_bvec b t in
     let d = t_coef k.[2] b t in let z = t_bvec b t in
     show_bvec b (Kernels.axpbypcz s a x c y d z));
-  reg "bk.vmul" (fun t -> let b = t_i t in let s = inst b in let k = t_s t in let vk = t_s t in
+  regb "vmul" (fun t -> let b = t_i t in let s = inst b in let k = t_s t in let vk = t_s t in
     let a = t_coef k.[0] b t in let x = t_blocks b t in let y = t_bvec_k vk.[0] b t in
     let c = t_coef k.[1] b t in let z = t_bvec_k vk.[1] b t in
     show_bvec b (Kernels.vmul s a x y c z));
-  reg "bk.vmul_mm" (fun t -> let b = t_i t in let s = inst b in let k = t_s t in
+  regb "vmul_mm" (fun t -> let b = t_i t in let s = inst b in let k = t_s t in
     let a = t_coef k.[0] b t in let x = t_blocks b t in let y = t_blocks b t in
     let c = t_coef k.[1] b t in let z = t_blocks b t in
     show_blocks (Kernels.vmul s a x y c z));
-  reg "bk.copy" (fun t -> let b = t_i t in let s = inst b in let x = t_bvec b t in let y = t_bvec b t in
+  regb "copy" (fun t -> let b = t_i t in let s = inst b in let x = t_bvec b t in let y = t_bvec b t in
     show_bvec b (Kernels.vcopy s x y));
-  reg "bk.clear" (fun t -> let b = t_i t in let s = inst b in let x = t_bvec b t in show_bvec b (Kernels.vclear s x));
-  reg "bk.inner" (fun t -> let b = t_i t in let x = t_bvec b t in let y = t_bvec b t in
+  regb "clear" (fun t -> let b = t_i t in let s = inst b in let x = t_bvec b t in show_bvec b (Kernels.vclear s x));
+  regb "inner" (fun t -> let b = t_i t in let x = t_bvec b t in let y = t_bvec b t in
     show_s (BlockKernels.bvec_inner_serial sc b (Obj.magic x) (Obj.magic y)));
-  reg "bk.inner_mm" (fun t -> let b = t_i t in let x = t_blocks b t in let y = t_blocks b t in
+  regb "inner_mm" (fun t -> let b = t_i t in let x = t_blocks b t in let y = t_blocks b t in
     show_blocks [BlockKernels.bmat_inner_serial sc b (Obj.magic x) (Obj.magic y)]);
-  reg "bk.lin_comb" (fun t -> let b = t_i t in let s = inst b in let k = t_s t in
+  regb "lin_comb" (fun t -> let b = t_i t in let s = inst b in let k = t_s t in
     let cv = t_list t (fun t -> let c = t_coef k.[0] b t in let v = t_bvec b t in (c, v)) in
     let alpha = t_coef k.[1] b t in let y = t_bvec b t in
     show_bvec b (Kernels.lin_comb s cv alpha y));
-  reg "bk.mul" (fun t -> let b = t_i t in let a = t_blk b t in let c = t_blk b t in show_blocks [(inst b).Scalar.smul a c]);
-  reg "bk.adjoint" (fun t -> let b = t_i t in let a = t_blk b t in show_blocks [(inst b).Scalar.sadj a]);
-  reg "bk.norm" (fun t -> let b = t_i t in let a = t_blk b t in
+  regb "mul" (fun t -> let b = t_i t in let a = t_blk b t in let c = t_blk b t in show_blocks [(inst b).Scalar.smul a c]);
+  regb "adjoint" (fun t -> let b = t_i t in let a = t_blk b t in show_blocks [(inst b).Scalar.sadj a]);
+  regb "norm" (fun t -> let b = t_i t in let a = t_blk b t in
     show_s (BlockInst.blk_get sc b (Obj.obj ((inst b).Scalar.sabs a)) 0 0));
   (* ---------------- complex ---------------- *)
   reg "cx.spmv" (fun t -> let k = t_s t in let alpha = t_ccoef k.[0] t in let a = t_ccrs t in let x = t_cvec t in
